@@ -52,7 +52,7 @@ def generate(seed, tier):
     for k in range(nobj):
         spell = r.choice(['lab%d', 'lab%d', 'sec:a%d', 'eq-1-%d', '9%d', 'my lab %d', 'Fig.%d'])     # no '_' : a label argument is not read verbatim (in math '_' is a subscript), which is argument parsing (C05), not resolution
         objs.append({'kind': r.choice(KINDS), 'm': 'ob%d' % k, 'label': (spell % k) if r.random() < 0.7 else None,
-                     'lsp': r.random() < 0.15})
+                     'lsp': r.random() < 0.15, 'lmac': r.random() < 0.12})
     labels = [o['label'] for o in objs if o['label']]
     refs = []
     for k in range(r.randint(2, 10)):
@@ -63,7 +63,7 @@ def generate(seed, tier):
             lab = r.choice(labels)
         refs.append({'m': 'rf%d' % k, 'label': lab, 'page': r.random() < 0.2,
                      'place': r.choice(['body', 'body', 'body', 'title', 'footnote', 'textbf', 'cell', 'item']),
-                     'rsp': r.choice([0, 0, 0, 1, 2])})
+                     'rsp': r.choice([0, 0, 0, 1, 2]), 'rmac': r.random() < 0.12})
     if labels and r.random() < 0.5:          # force several references to one label
         lab = r.choice(labels)
         for k in range(2):
@@ -74,9 +74,9 @@ def generate(seed, tier):
     for p in range(P):
         # slot s in [0, 2*nobj]: even 2j = before object j, odd 2j+1 = inside object j, 2*nobj = after the last
         orders.append([ro.randrange(2 * nobj + 1) for _ in refs])
-    ops = [{'op': 'OBJ', 'kind': o['kind'], 'm': o['m'], 'label': o['label'], 'lsp': o.get('lsp', False)} for o in objs]
+    ops = [{'op': 'OBJ', 'kind': o['kind'], 'm': o['m'], 'label': o['label'], 'lsp': o.get('lsp', False), 'lmac': o.get('lmac', False)} for o in objs]
     ops += [{'op': 'REF', 'm': x['m'], 'label': x['label'], 'page': x['page'], 'slots': [o[i] for o in orders],
-             'place': x.get('place', 'body'), 'rsp': x.get('rsp', 0)}
+             'place': x.get('place', 'body'), 'rsp': x.get('rsp', 0), 'rmac': x.get('rmac', False)}
             for i, x in enumerate(refs)]
     return {'property': PID, 'seed': seed, 'swarm': {'P': P, 'transports': ['api', 'doc']}, 'ops': ops}
 
@@ -164,8 +164,17 @@ def _api_ref(doc, ctx, x):
 # --------------------------------------------------------------------------
 # transport 2: the schedule compiled to LaTeX, parsed by the real TeX
 
+def _mac(lab):
+    """The same key with its first 'a' produced by a macro (\\newcommand{\\qa}{a} in the preamble): keys are expanded."""
+    i = lab.find('a')
+    if i < 0 or lab[i + 1:i + 2] == ' ':
+        return lab
+    return lab[:i] + '\\qa ' + lab[i + 1:]
+
+
 def _ref_tex(x, dot='.'):
-    lab = [x['label'], x['label'] + ' ', ' ' + x['label']][x.get('rsp', 0) % 3]      # blanks around the key are not part of it
+    key = _mac(x['label']) if x.get('rmac') else x['label']
+    lab = [key, key + ' ', ' ' + key][x.get('rsp', 0) % 3]      # blanks around the key are not part of it
     return 'R%s \\%s{%s}%s' % (x['m'], 'pageref' if x['page'] else 'ref', lab, dot)
 
 
@@ -183,7 +192,7 @@ def _ref_par(x):
 
 
 def compile_doc(events):
-    lines = ['\\documentclass{article}', '\\newtheorem{thm}{Theorem}', '\\newtheorem{lem}[thm]{Lemma}',
+    lines = ['\\documentclass{article}', '\\newcommand{\\qa}{a}', '\\newtheorem{thm}{Theorem}', '\\newtheorem{lem}[thm]{Lemma}',
              '\\newtheorem{prop}{Proposition}[subsection]', '\\begin{document}']
     for e in events:
         if e[0] == 'REF':
@@ -202,7 +211,8 @@ def compile_doc(events):
         inner = [dict(x, place='body') if x.get('place') == 'item' else x for x in inner]
         pre = ' '.join(_ref_par(x) for x in inner[:half])
         post = ' '.join(_ref_par(x) for x in inner[half:])
-        lab = ('\\label{%s}' % ((' %s ' % o['label']) if o.get('lsp') else o['label'])) if o['label'] else ''
+        key = (_mac(o['label']) if o.get('lmac') else o['label']) if o['label'] else None
+        lab = ('\\label{%s}' % ((' %s ' % key) if o.get('lsp') else key)) if o['label'] else ''
         if k in ('section', 'subsection'):
             lines.append('\\%s{T%s%s}%s' % (k, m, ttl, lab))
             lines.append('%s body%s %s' % (pre, m, post))
